@@ -58,6 +58,8 @@ func init() {
 			"(R7) close frames are written under the same mutex as data frames. " +
 			"It does not decide acceptance of whole output traces by the protocol automata (interleavings of engine events with client messages).",
 		Mutants: []Mutant{
+			{Name: "a connection whose init was refused stays open (reverts part of the F85 fix)", File: "execution/subscription/websocket/protocol_graphql_ws.go", Rule: "C19-R17", Key: "ProtocolGraphQLWSHandler.Handle/closed-after:refused-init",
+				Old: "\t\t\t// The connection was refused: it must not stay usable for a client that ignores the\n\t\t\t// connection_error (subscriptions-transport-ws closes the socket after it).\n\t\t\tp.disconnect()\n", New: ""},
 			{Name: "a report with internal errors only is converted by the HTTP helper, which answers nil (seeded change C19-13)", File: "v2/pkg/graphqlerrors/errors.go", Rule: "C19-R15", Key: "RequestErrorsFromError/error-payload-never-empty",
 				Old: "\tif errors.As(err, &report) {\n\t\tif len(report.ExternalErrors) == 0 {\n", New: "\tif errors.As(err, &report) {\n\t\tif len(report.ExternalErrors) >= 0 {\n\t\t\treturn RequestErrorsFromOperationReport(report)\n\t\t}\n\t\tif len(report.ExternalErrors) == 0 {\n"},
 			{Name: "the finished query releases its id a second time on its way out (reverts the F60 fix)", File: "execution/subscription/engine.go", Rule: "C19-R14", Key: "ExecutorEngine.handleNonSubscriptionOperation/id-released-only-while-owned",
@@ -423,6 +425,7 @@ func runC19(r *fw.Run) {
 	defer c19IdReleasedOnlyWhileOwned(r)
 	defer c19ErrorPayloadNeverEmpty(r)
 	defer c19TerminalEventEndsTheGoroutine(r)
+	defer c19RefusedOrTerminatedConnectionsAreClosed(r)
 	p := r.Prog
 	ws, sub := p.Pkg("websocket"), p.Pkg("subscription")
 	if ws == nil || sub == nil {
@@ -2577,4 +2580,109 @@ func c19TerminalEventEndsTheGoroutine(r *fw.Run) {
 		ast.Inspect(fi.Decl.Body, visit)
 	}
 	r.Expect("C19-R16", "polls that may emit the terminal error event inside a loop of an operation goroutine", n, 1)
+}
+
+// c19RefusedOrTerminatedConnectionsAreClosed (R17): in the legacy graphql-ws protocol the server answers a connection_init
+// it does not accept with connection_error — and then has to close the socket: the handler keeps no "refused" state, so a
+// client that ignores the error could go on and start operations on a connection whose (authentication) check failed.
+// connection_terminate likewise asks for the connection to be closed. In ProtocolGraphQLWSHandler.Handle every exit on
+// the edge where the init was refused (the error of handleInit is non-nil) and every exit of the connection_terminate
+// arm has passed a call that reaches TransportClient.Disconnect / DisconnectWithReason.
+func c19RefusedOrTerminatedConnectionsAreClosed(r *fw.Run) {
+	p := r.Prog
+	r.Rule("C19-R17", "in the graphql-ws handler every exit after a refused connection_init and every exit of the connection_terminate arm has disconnected the client")
+	fi := p.Func("websocket", "ProtocolGraphQLWSHandler.Handle")
+	if fi == nil {
+		r.Error("C19-R17: ProtocolGraphQLWSHandler.Handle not found")
+		return
+	}
+	info := fi.Info()
+	// functions of the package that reach a Disconnect of the transport client
+	disconnects := map[*types.Func]bool{}
+	for changed := true; changed; {
+		changed = false
+		for _, cand := range p.Funcs("websocket") {
+			if disconnects[cand.Obj] {
+				continue
+			}
+			cinfo := cand.Info()
+			fw.WalkAll(cand.Decl.Body, func(nd ast.Node) bool {
+				if c, ok := nd.(*ast.CallExpr); ok {
+					if fn := fw.Callee(cinfo, c); fn != nil && (disconnects[fn] || (strings.HasPrefix(fn.Name(), "Disconnect") && fw.RecvNameOfFunc(fn) == "TransportClient")) {
+						disconnects[cand.Obj] = true
+					}
+				}
+				return true
+			})
+			if disconnects[cand.Obj] {
+				changed = true
+			}
+		}
+	}
+	var initErr types.Object
+	fw.WalkAll(fi.Decl.Body, func(nd ast.Node) bool {
+		if as, ok := nd.(*ast.AssignStmt); ok && len(as.Rhs) == 1 && len(as.Lhs) == 2 {
+			if c, isCall := ast.Unparen(as.Rhs[0]).(*ast.CallExpr); isCall {
+				if fn := fw.Callee(info, c); fn != nil && fn.Name() == "handleInit" {
+					if id, isID := as.Lhs[1].(*ast.Ident); isID {
+						initErr = info.ObjectOf(id)
+					}
+				}
+			}
+		}
+		return true
+	})
+	n := map[string]int{}
+	in := fw.NewInterp(fi)
+	in.H = fw.Hooks{
+		Lit: func(l *ast.FuncLit, ctx fw.LitCtx, st *fw.State) fw.LitMode { return fw.LitSkip },
+		Case: func(tag ast.Expr, vals []ast.Expr, match bool, st *fw.State) {
+			if !match {
+				return
+			}
+			for _, v := range vals {
+				if c := fw.ConstObj(info, v); c != nil {
+					switch c.Name() {
+					case "GraphQLWSMessageTypeConnectionTerminate":
+						st.Set("arm:terminate")
+					case "GraphQLWSMessageTypeConnectionInit":
+						st.Set("arm:init")
+					}
+				}
+			}
+		},
+		Cond: func(e ast.Expr, branch bool, st *fw.State) {
+			a := fw.Atom(info, e, branch)
+			if id, isID := ast.Unparen(a.X).(*ast.Ident); isID && a.Kind == "NonNil" && initErr != nil && info.ObjectOf(id) == initErr && st.Must("arm:init") {
+				st.Set("refused-init")
+			}
+		},
+		Node: func(nd ast.Node, st *fw.State) {
+			if c, ok := nd.(*ast.CallExpr); ok {
+				if fn := fw.Callee(info, c); fn != nil && (disconnects[fn] || (strings.HasPrefix(fn.Name(), "Disconnect") && fw.RecvNameOfFunc(fn) == "TransportClient")) {
+					st.Set("disconnected")
+				}
+			}
+		},
+		Exit: func(ret *ast.ReturnStmt, lit *ast.FuncLit, st *fw.State) {
+			if lit != nil || !in.Final() {
+				return
+			}
+			pos := fi.Decl.End()
+			if ret != nil {
+				pos = ret.Pos()
+			}
+			for fact, label := range map[string]string{"refused-init": "refused-init", "arm:terminate": "connection-terminate"} {
+				if !st.Must(fact) {
+					continue
+				}
+				n[label]++
+				r.Check(st.Must("disconnected"), "C19-R17", "ProtocolGraphQLWSHandler.Handle/closed-after:"+label, p.Pos(pos), "the exit of Handle after "+label+" has disconnected the client",
+					"Handle returns after "+label+" without disconnecting the client: the handler keeps no state about it, so the connection stays fully usable — `start` after a connection_init the InitFunc refused (an authentication failure) is executed and answered with data")
+			}
+		},
+	}
+	in.Run(nil)
+	r.Expect("C19-R17", "exits after a refused init", n["refused-init"], 1)
+	r.Expect("C19-R17", "exits of the connection_terminate arm", n["connection-terminate"], 1)
 }
